@@ -199,6 +199,11 @@ class Statement(object):
         :param statements: the full set of statements that make up the program
         :param this_index: the index that this instruction occurs at
         """
+        if not self.code_pkg.post_byte_choices:
+            # a label used as a constant index offset: the 16-bit offset form was already chosen
+            self.fixed_size = True
+            return
+
         # TODO: implement detection of 5-bit offsets as an optimization
         min_size = 0
         max_size = 0
@@ -332,6 +337,10 @@ class Statement(object):
                 relative_address = -target.int if target.is_negative() else target.int
             else:
                 relative_address = statements[self.code_pkg.additional.int].code_pkg.address.int
+
+            if not self.code_pkg.post_byte_choices:
+                self.code_pkg.additional = NumericValue(relative_address % 0x10000, size_hint=4)
+                return
 
             start_address = statements[this_index].code_pkg.address.int
             jump_amount = relative_address - start_address - self.code_pkg.size
